@@ -10,17 +10,20 @@ Trace == ndJsonDeserialize(IOEnv.VERIF_TRACE)
 VARIABLES l, bad, drift
 vars == <<l, bad, drift>>
 
+EoiPanic(r) == IF r.eoi_panic # "" THEN <<"panic">> ELSE <<>>
+
 Fails(r) ==
   IF r.panic # "" THEN <<"panic">>
   ELSE IF r.k = "seg" THEN
     LET rs == r.segs  f == r.first  la == r.last IN
-    IF ~ (\A j \in DOMAIN rs : IsRange(rs[j])) \/ rs = <<>> THEN <<"tiles">> ELSE
+    IF ~ (\A j \in DOMAIN rs : IsRange(rs[j])) \/ rs = <<>> THEN <<"tiles", "index_in_range_yields_no_segment">> \o EoiPanic(r) ELSE
       (IF Tiles(r.sz, r.init, r.end, rs) THEN <<>> ELSE <<"tiles">>)
    \o (IF r.count = Len(rs) /\ la - f + 1 = Len(rs) THEN <<>> ELSE <<"count">>)
    \o (IF \A j \in DOMAIN r.ifs : StartIndexOK(r.init + j - 1, r.ifs[j], f, rs) THEN <<>> ELSE <<"index_for_start">>)
    \o (IF \A j \in DOMAIN r.ife : EndIndexOK(r.init + j, r.ife[j], f, rs) THEN <<>> ELSE <<"index_for_end">>)
    \o (IF r.below = <<>> /\ r.above = <<>> /\ r.above2 = <<>> THEN <<>> ELSE <<"out_of_range_index">>)
    \o (IF \A j \in DOMAIN r.eoi : r.eoi[j] <=> (rs[j][2] % r.sz = 0) THEN <<>> ELSE <<"ends_on_interval">>)
+   \o EoiPanic(r)
   ELSE IF r.k = "split" THEN
     (IF SplitOK(r.r, r.chunk, r.out) THEN <<>> ELSE <<"split">>)
   ELSE IF r.k = "merged" THEN
